@@ -579,6 +579,25 @@ def check_types(case):
         if len(t) > 1 and t != t[::-1]:
             require(not lib_eq(x, specs.ty(cls, t[::-1])), "C03:type-eq",
                     lambda: "{!r} equals its reverse".format(x))
+    # a type against things that are not types (its own objects, objects
+    # named like it, its printed form): equality answers without raising,
+    # the same both ways round, and never "equal" with unequal hashes
+    if cls != "cat":
+        from discopy import cat
+        others = [str(x), None, cat.Ob(str(x)), cat.Ob(repr(x))] + [
+            w for w in x] + [cat.Ob(w[0]) for w in t]
+        for other in others:
+            try:
+                same = lib_eq(x, other)
+            except Violation:
+                raise
+            except Exception as exc:  # noqa
+                raise Violation("C03:eq-raises", "{!r} == {!r} raised {}: {}"
+                                .format(x, other, type(exc).__name__, exc))
+            if same:
+                require(hash(x) == hash(other), "C03:hash",
+                        lambda: "{!r} == {!r} with different hashes".format(
+                            x, other))
     uniform = len({z for _, z in t}) == 1 and len(t) >= 2 and t[0][1] != 0
     return dict(nt=uniform, labels=[cls, "len%d" % len(t)], show=repr(x))
 
